@@ -341,7 +341,7 @@ Definition un_dispatch (fuel : nat) (sx : ty) (op : unop) (v : value) (st : stor
       match element_type (as_type v) with
       | None => (st, sc, SPanic)
       | Some et =>
-          let d := match of_type et with Some d => d | None => VVoid end in
+          let '(d, st) := match alloc_default et st with Some ds => ds | None => (VVoid, st) end in
           match call_def (p_iter pre) [v; d] st sc with
           | (st, sc, SVal f) => retyped_def f (TTup [TBool; et]) st sc
           | (st, sc, SError _) => (st, sc, SPanic)
@@ -525,9 +525,9 @@ Proof. reflexivity. Qed.
 Lemma exec_S_ITypeFilter : forall n st sc x t,
   E (S n) st sc (ITypeFilter x t) =
   with_val_def (E n) x st sc (fun st sc itv =>
-    match of_type t with
+    match alloc_default t st with
     | None => (st, sc, SPanic)
-    | Some d =>
+    | Some (d, st) =>
         let '(st, id) := alloc_fun st (mkClosure None [] (BLang (type_filter_body itv d t)) (TTup [TBool; t])) in
         (st, sc, SVal (VFun id [] (TTup [TBool; t])))
     end).
@@ -1832,9 +1832,9 @@ Proof.
     cbn [fst snd] in H. subst sc1. destruct o; apply rtail_here.
   - (* UIter *)
     destruct (element_type (as_type v)) as [et|]; [|apply rtail_here]. cbv zeta.
-    set (d := match of_type et with Some d => d | None => VVoid end).
-    pose proof (call_def_scs ex (p_iter pre) [v; d] st (s :: rest)) as H.
-    destruct (call_def ex (p_iter pre) [v; d] st (s :: rest)) as [[st1 sc1] sg].
+    destruct (match alloc_default et st with Some ds => ds | None => (VVoid, st) end) as [d st0].
+    pose proof (call_def_scs ex (p_iter pre) [v; d] st0 (s :: rest)) as H.
+    destruct (call_def ex (p_iter pre) [v; d] st0 (s :: rest)) as [[st1 sc1] sg].
     unfold scs in H; cbn [fst snd] in H. subst sc1.
     destruct sg; try apply rtail_here. apply (rtail_scs _ s). apply retyped_def_scs.
 Qed.
@@ -1964,7 +1964,7 @@ Proof.
       destruct v1; try apply rtail_here. destruct (nth_error vs k); apply rtail_here.
     + (* ITypeFilter *) rewrite exec_S_ITypeFilter.
       apply with_val_tail; [exact IH|]. intros st1 s1 v1.
-      destruct (of_type t); apply rtail_here.
+      destruct (alloc_default t st1) as [[d st2]|]; apply rtail_here.
     + rewrite exec_S_IVar. apply rtail_here.
     + (* IBin *)
       assert (Hgen : op <> And -> op <> Or -> rtail rest (E (S n) st (s :: rest) (IBin op i1 i2))).
